@@ -64,7 +64,17 @@ func hReadRealtime(r *gtfs.Realtime) {
 }
 
 func Harness_C18_static() {
-	b := vr.Archive(hStaticFeed())
+	feed := hStaticFeed()
+	if vr.Param("MISSING", 0) == 1 { // the error path: a required member is absent
+		var kept []vr.File
+		for _, f := range feed {
+			if f.Name != "stop_times.txt" {
+				kept = append(kept, f)
+			}
+		}
+		feed = kept
+	}
+	b := vr.Archive(feed)
 	opts := gtfs.ParseStaticOptions{InheritWheelchairBoarding: true}
 	var ra, rb *gtfs.Static
 	vr.Footprint("A", func() { ra, _ = gtfs.ParseStatic(b, opts) })
